@@ -375,7 +375,7 @@ void FN(gm_ProcessEvent)(uint64_t me, double now, unsigned type, const void *con
 			mk.a = (uint8_t)(i & 1 ? 3 : 0);
 			do_mem(s, &mk);
 		}
-		if(s->goal == 0 && g->post_goal == 0)
+		if(s->goal == 0 && g->post_goal == 0 && !g->endless)
 			s->frozen = 1; /* predicate true at initialisation */
 		else if(g->victim_nohb && me == 0 && g->n_lps > 1) {
 			/* no heartbeat: whether and when this LP reaches its goal depends on the others alone */
@@ -433,7 +433,7 @@ void FN(gm_ProcessEvent)(uint64_t me, double now, unsigned type, const void *con
 		s->hash = fold(s->hash, 0x4e1a7 + (r >> 8) % g->n_lps);
 		A(ScheduleNewEvent)((r >> 8) % g->n_lps, now, type, content, size);
 	}
-	if(type == GM_HB_TYPE && s->handled < s->goal + g->post_goal) {
+	if(type == GM_HB_TYPE && (g->endless || s->handled < s->goal + g->post_goal)) {
 		double d = g->time_mode == 1 ? 1.0 : 0.5 + (double)(sm(&s->prng) >> 11) * 0x1p-53;
 		if(g->hb_scale > 1)
 			d *= g->time_mode == 1 ? g->hb_scale : g->hb_scale * (0.2 + (double)(sm(&s->prng) >> 40) * 0x1p-23);
@@ -476,7 +476,7 @@ void FN(gm_ProcessEvent)(uint64_t me, double now, unsigned type, const void *con
 	}
 	if(g->stop_lp == (int32_t)me && g->stop_at == s->handled && !is_chain)
 		A(RootsimStop)();
-	if(s->handled >= s->goal + g->post_goal) {
+	if(!g->endless && s->handled >= s->goal + g->post_goal) {
 		s->frozen = 1;
 		s->frozen_at = now;
 	}
